@@ -4,6 +4,7 @@ pub mod refmath;
 pub mod toy;
 pub mod airfam;
 pub mod coinrec;
+pub mod lagfam;
 
 use std::fmt::Write as _;
 
